@@ -60,6 +60,7 @@ class Recorder:
         self.exit_calls = 0      # calls of RTDCWriter.rectify_metadata /
         self.exit_fault_at = None    # version_brand; fault at the n-th
         self.fault_pos = None    # operation index at which the fault hit
+        self.signal_delay = 0.0  # seconds between operation start and signal
 
     def inside(self, path):
         try:
@@ -73,6 +74,16 @@ class Recorder:
                 and idx == self.fault_at:
             self.fired = True
             self.fault_pos = idx
+            if self.fault_kind.startswith("signal:"):
+                # deliver a real signal to this process while (or right
+                # after) operation idx executes - possibly inside an HDF5 call
+                import signal
+                import threading
+                signum = getattr(signal, self.fault_kind[7:])
+                threading.Timer(self.signal_delay, os.kill,
+                                (os.getpid(), signum)).start()
+                self.ops.append((kind, path, path2, detail))
+                return False
             if self.fault_kind == "kill":
                 os._exit(KILL_EXIT)
             if self.fault_kind == "partial" and kind == "dset-write":
